@@ -999,7 +999,54 @@ def r7(F, rep):
     rep.count("keyword_vector_subscripts", n)
 
 
+def r9(F, rep, rid="C10-R9"):
+    rep.rule(rid, "the size that is checked is the size that is used: where a loop bounded by `V.size() - k` (unsigned: it wraps "
+                  "when V is shorter than k) directly follows a rejection of the form `if (W.size() < m) return error`, W is V "
+                  "and m > k -- a check copied from a sibling loop and left on the other container protects nothing")
+    n = 0
+    for f in sorted(F.funcs.values(), key=lambda g: g.q):
+        if "/src/" not in f.file or f.body is None:
+            continue
+        for blk in f.walk():
+            if blk["k"] != "CompoundStmt":
+                continue
+            ks = [c for c in blk.get("c", []) if c is not None]
+            for prev, L in zip(ks, ks[1:]):
+                if L["k"] != "ForStmt" or L["c"][1] is None or prev["k"] != "IfStmt":
+                    continue
+                bound = None
+                for b in f.walk(L["c"][1]):
+                    if b["k"] == "BinaryOperator" and b.get("op") == "-":
+                        l, r = X.kids(b)
+                        lit = C._lit(r)
+                        kl = X.re_strip(X.key(l, f))
+                        if lit is not None and lit > 0 and kl.endswith(".size()"):
+                            bound = (kl, lit)
+                if bound is None:
+                    continue
+                cs = prev["c"]
+                cond = cs[1] if len(cs) == 4 else cs[0]
+                body = cs[2] if len(cs) == 4 else cs[1]
+                if cond is None or body is None or not any(x["k"] == "ReturnStmt" for x in f.walk(body)):
+                    continue
+                cc = X.strip(cond)
+                if cc["k"] != "BinaryOperator" or cc.get("op") not in ("<", "<="):
+                    continue
+                wl = X.re_strip(X.key(X.kids(cc)[0], f))
+                m = C._lit(X.kids(cc)[1])
+                if not wl.endswith(".size()") or m is None:
+                    continue
+                n += 1
+                need = bound[1] + (1 if cc["op"] == "<" else 0)
+                ok = wl == bound[0] and m >= need
+                rep.add(rid, "%s|%s" % (f.q, bound[0]), f.loc(prev), "%s: loop up to `%s - %d` follows a rejection of `%s %s %d`" % (f.q, bound[0], bound[1], wl, cc["op"], m), ok,
+                        detail="with a shorter container the unsigned bound wraps around and the loop indexes far past the end (the configuration is not rejected: the host crashes)", func=f.q)
+    if n < 2:
+        raise AnalysisBroken("%s: only %d size rejections directly followed by a `size() - k` loop found" % (rid, n))
+
+
 def run(F, rep, tier):
+    r9(F, rep)
     from . import rules_c13
     rules_c13.r13(F, rep, "C10-R8")   # a rejected duplicate does not remove the original's registry entry
     r6(F, rep)
